@@ -507,6 +507,9 @@ impl HalfConnection {
             rx_dud_count: self.packet_receiver.verif_dud_count(),
             ack_queue_len: self.frame_ack_queue.verif_len(),
             rto_ms: self.send_rate_comp.rto_ms(),
+            tx_alloc_limit: self.packet_sender.verif_max_alloc(),
+            rx_alloc_limit: self.packet_receiver.verif_max_alloc(),
+            tx_rate_limit: self.send_rate_comp.verif_max_send_rate(),
         }
     }
 }
